@@ -114,6 +114,7 @@ def handle (line : String) : String :=
       s!"gss={p.groupSegmentSize} grid={p.gridX},{p.gridY},{p.gridZ} wg={p.wgX},{p.wgY},{p.wgZ} co={p.kernelObject} ka={p.kernargAddress} img={bytesHex img}"
     | _, _, _, _, _, _ => "bad"
   | "c01" :: "emu" :: _ => Emu.handle line
+  | "c01" :: "copycode" :: _ => Emu.handle line
   | _ => "bad"
 
 end C01
